@@ -363,9 +363,13 @@ def decode(ctx):
             d = (f"with buffer length {env['L']}, announced length {env['R']}, limit {env['M']} ({cls}) the extracted decoder {bad}; expected {want} "
                  f"({len(bads)} grid points disagree) — frames would be dropped, duplicated, buffered without bound or mis-parsed depending on how the bytes arrive")
         ctx.check(not bads, R_, fn["fn"], f"table:{cls}", want, d, **loc)
+    seen_names = {}
     for (n, conds) in mut_sites:
         bads = site_bad[id(n)]
         nm = short(callee_of(n), 2) if n.get("e") != "assign" else "*src = .."
+        seen_names[nm] = seen_names.get(nm, 0) + 1
+        if seen_names[nm] > 1:
+            nm += f"#{seen_names[nm]}"          # several sites of the same callee: source order
         d = ""
         if bads:
             env, cls = bads[0]
